@@ -211,3 +211,21 @@ Proof.
       * left. inversion Hl; inversion Hs; subst. left. f_equal. lia.
       * right. exists k. repeat split; auto. lia.
 Qed.
+
+(* ... and it is in block order: strictly increasing positions *)
+From Coq Require Import Sorting.Sorted.
+Lemma chosen_from_ge : forall ls ss i p x, In (p, x) (chosen_from i ls ss) -> i <= p.
+Proof.
+  induction ls as [|l ls IH]; intros [|s ss] i p x Hin; cbn [chosen_from] in Hin; try contradiction.
+  apply in_app_or in Hin as [Hin|Hin].
+  - destruct s; [|contradiction]. destruct Hin as [Heq|[]]. inversion Heq; subst. lia.
+  - apply IH in Hin. lia.
+Qed.
+
+Lemma chosen_from_sorted : forall ls ss i, StronglySorted pos_lt (chosen_from i ls ss).
+Proof.
+  induction ls as [|l ls IH]; intros [|s ss] i; cbn [chosen_from]; try constructor.
+  apply ssorted_app; [destruct s; repeat constructor|apply IH|].
+  intros [p x] [q y] Ha Hb. destruct s; [|contradiction]. destruct Ha as [Heq|[]]. inversion Heq; subst.
+  apply chosen_from_ge in Hb. unfold pos_lt. cbn [fst]. lia.
+Qed.
